@@ -582,8 +582,24 @@ def oracle_c20(sc_direct, tr_direct, tr_http, jura_triggered_required=True):
             if ("panic" in rd) != ("panic" in rh):
                 return dict(step=k, op=op, what="one of the two runs panicked")
             break
-        if op["op"] in ("now", "new"):
-            continue   # `now` goes through the handler in both runs; new_backtest has no HTTP route
+        if op["op"] == "now":
+            # `now` goes through the handler in both runs (AppState has no method for it); the in-process answer is the
+            # backtest's clock read from the state (what TestClient::now returns), recorded by the harness as "inproc"
+            ip = rd.get("inproc")
+            if ip is not None:
+                if ("some" in ip) != ("some" in rh):
+                    return dict(step=k, op=op, what="HTTP now answered %s where the in-process clock reading is %s" % (
+                        rh.get("status"), "a result" if "some" in ip else "None"))
+                if "some" in ip:
+                    r = json_close(ip["some"], rh["some"])
+                    if r:
+                        return dict(step=k, op=op, what="HTTP now differs from the in-process clock (backtest.date, "
+                                    "dataset.has_next(backtest.pos)): " + r, in_process=ip["some"], http=rh["some"])
+                elif rh.get("status") != 400:
+                    return dict(step=k, op=op, what="unknown backtest/dataset must give HTTP 400", status=rh.get("status"))
+            continue
+        if op["op"] == "new":
+            continue   # new_backtest has no HTTP route
         if ("some" in rd) != ("some" in rh):
             return dict(step=k, op=op, what="HTTP answered %s where the in-process call answered %s" % (
                 rh.get("status"), "a result" if "some" in rd else "None"))
